@@ -25,7 +25,7 @@ def check(run, tier):
     n = 120 if q else 3000
     for i in range(n):
         p = programs.worklist_program(r, f"C16/r{i}", "evo" if i % 2 else "fluent", r.randint(1, 8), fault=0.25 if i % 2 else 0.0,
-                                      unit=Fraction(1), wlmax=r.choice([2, 3, 5, 16]), autosplit=(i % 5 != 0))
+                                      unit=Fraction(1), wlmax=r.choice([2, 3, 5, 16]), autosplit=(i % 5 != 0), emit_prob=0.3 if i % 3 == 0 else 0.0)
         progs += paired(p)
     for p in targeted.base_programs():
         progs.append(p)
